@@ -319,6 +319,9 @@ def replay_case(raw: dict, part: Part) -> None:
         _thx.set_instrumented([])
         sc = SqlScenario(cfg, "std", build_programs(names))
     else:
+        from . import thx as _thx
+
+        _thx.install_copy_points(enabled=cfg != "cached")
         sc = Scenario(cfg, "std", build_programs(names), [importlib.import_module(m) for m in THREAD_CONFIGS[cfg]])
     ex = sc.execute(Chooser(list(raw["schedule"])))
     print("history:", ex["hist"])
